@@ -32,17 +32,18 @@ theorem Inv.not_uses {c : Cfg} {o : Orders} {s : State} {t t' i : Nat} (inv : In
 theorem Inv.slot_step {c : Cfg} {o : Orders} {s s' : State} {t i0 : Nat} (inv : Inv c o s) (hown0 : s.own i0 = .held t)
     (hext : s.mem.Ext s'.mem) (hwf : s'.mem.WF)
     (htv : ∀ t', t' ≠ t → s'.mem.tv t' = s.mem.tv t')
-    (hhist : ∀ l, l ≠ .slot i0 → s'.mem.hist l = s.mem.hist l)
+    (hhist : ∀ l, l ≠ .slot i0 → l ≠ .tbl → s'.mem.hist l = s.mem.hist l)
+    (hmono : ∀ (a b : Nat) (ma mb : Msg Loc), a ≤ b → (s'.mem.hist .tbl)[a]? = some ma → (s'.mem.hist .tbl)[b]? = some mb → ma.val ≤ mb.val)
     (hown : s'.own = s.own) (htslot : s'.tslot = s.tslot) (hpv : s'.pv = s.pv) (htkv : s'.tkv = s.tkv)
     (hrecl : s'.recl = s.recl) (hsv : s'.sv = s.sv)
     (hlt : ∀ i, i ≠ i0 → s'.lt i = s.lt i) (hfv : ∀ i, i ≠ i0 → s'.fv i = s.fv i)
     (hpub : ∀ i, i ≠ i0 → s'.pub i = s.pub i) (hav : ∀ i, i ≠ i0 → s'.av i = s.av i)
     (hpcs : ∀ t', t' ≠ t → s'.pc t' = s.pc t')
-    (hcr : ∀ i, (s'.pc t).crAt i = (s.pc t).crAt i)
+    (hcr : ∀ i, i ≠ i0 → (s'.pc t).crAt i = (s.pc t).crAt i)
     (hlk : ∀ i, i ≠ i0 → (s'.pc t).lkAt i = (s.pc t).lkAt i)
     (hlk3 : ∀ i, i ≠ i0 → (s'.pc t).lk3At i = (s.pc t).lk3At i)
     (hav0 : s.av i0 ≤ s'.av i0 ∧ s'.av i0 ≤ s'.cur t)
-    (hcap0 : c.tls = false → ¬ creating s i0 t → CapOK c s' (s'.av i0) i0)
+    (hcap0 : c.tls = false → ¬ creating s' i0 t → CapOK c s' (s'.av i0) i0)
     (hregion0 : ∀ V, s'.fv i0 = some V → RegionOK c s' i0 V)
     (hdich0 : ∀ V e W, s'.fv i0 = some V → s.tkv e = some W → V ≤ W ∨ W ≤ V)
     (hclosed0 : s'.fv i0 = none → (s'.pc t).lk3At i0 = false →
@@ -51,17 +52,18 @@ theorem Inv.slot_step {c : Cfg} {o : Orders} {s s' : State} {t i0 : Nat} (inv : 
     (hdepth0 : s'.fv i0 = none → (s'.pc t).lkAt i0 = false → s'.lt i0 = 0)
     (hrecl0 : ∀ e V, s.recl e = true → s'.fv i0 = some V → s.pv e ≤ V)
     (hpc : PcOK c o s' t) : Inv c o s' := by
-  have hlen : ∀ l, l ≠ .slot i0 → s'.mem.len l = s.mem.len l := fun l hl => by simp [Mem.len, hhist l hl]
+  have hlen : ∀ l, l ≠ .slot i0 → l ≠ .tbl → s'.mem.len l = s.mem.len l := fun l hl hl2 => by simp [Mem.len, hhist l hl hl2]
+  have hcnt2 : c.cnt ≠ .tbl := by unfold Cfg.cnt; split <;> simp
   have hcnt : c.cnt ≠ .slot i0 := by unfold Cfg.cnt; split <;> simp
   have others : ∀ t', t' ≠ t → (s.pc t').uses i0 = false := fun t' e => inv.not_uses hown0 e
   constructor
   · exact hwf
-  · exact inv.gverVal.same (hhist _ (by simp))
-  · exact inv.naccVal.same (hhist _ (by simp))
-  · exact inv.ntidVal.same (hhist _ (by simp))
-  · intro h; rw [hlen _ (by simp)]; exact inv.naccTls h
-  · intro k msg e hk; rw [hhist _ (by simp)] at hk; rw [hpv]; exact inv.gverView k msg e hk
-  · intro a b ma mb; rw [hhist _ (by simp)]; exact inv.tblMono a b ma mb
+  · exact inv.gverVal.same (hhist _ (by simp) (by simp))
+  · exact inv.naccVal.same (hhist _ (by simp) (by simp))
+  · exact inv.ntidVal.same (hhist _ (by simp) (by simp))
+  · intro h; rw [hlen _ (by simp) (by simp)]; exact inv.naccTls h
+  · intro k msg e hk; rw [hhist _ (by simp) (by simp)] at hk; rw [hpv]; exact inv.gverView k msg e hk
+  · exact hmono
   · intro e W h
     rw [htkv] at h
     obtain ⟨h1, h2, h3, h4⟩ := inv.tick e W h
@@ -71,7 +73,7 @@ theorem Inv.slot_step {c : Cfg} {o : Orders} {s s' : State} {t i0 : Nat} (inv : 
     by_cases e : i = i0
     · subst e; exact hregion0 V h
     · rw [hfv i e] at h
-      exact (inv.region i V h).frame hext (hhist _ (by simp [e])) (by rw [hav i e]; exact View.le_refl _)
+      exact (inv.region i V h).frame hext (hhist _ (by simp [e]) (by simp)) (by rw [hav i e]; exact View.le_refl _)
         (hpub i e) (fun e _ => by rw [hpv]) (by rw [hlt i e]; exact (inv.region i V h).depth)
   · intro i V e W h1 h2
     rw [htkv] at h2
@@ -89,26 +91,26 @@ theorem Inv.slot_step {c : Cfg} {o : Orders} {s s' : State} {t i0 : Nat} (inv : 
       exact ⟨View.le_trans h1 (hext.cur h), h2⟩
   · intro i h ho ht hc
     rw [hown] at ho
-    have hc' : ¬ creating s i h := by
-      intro hc'
-      apply hc
-      unfold creating at hc' ⊢
-      by_cases e : h = t
-      · subst e; rw [hcr]; exact hc'
-      · rw [hpcs h e]; exact hc'
     by_cases ei : i = i0
     · subst ei
       rw [hown0] at ho; cases ho
-      exact hcap0 ht hc'
-    · rw [hav i ei]
+      exact hcap0 ht hc
+    · have hc' : ¬ creating s i h := by
+        intro hc'
+        apply hc
+        unfold creating at hc' ⊢
+        by_cases e : h = t
+        · subst e; rw [hcr i ei]; exact hc'
+        · rw [hpcs h e]; exact hc'
+      rw [hav i ei]
       exact (inv.accCap i h ho ht hc').ext hext
   · intro i ho
     rw [hown] at ho
     have ei : i ≠ i0 := by intro e; subst e; rw [hown0] at ho; cases ho
     obtain ⟨msg, h1, h2, h3, h4, h5⟩ := inv.free i ho
-    exact ⟨msg, by rw [hhist _ (by simp)]; exact h1, by rw [hav i ei]; exact h2, h3, by rw [hlt i ei]; exact h4,
+    exact ⟨msg, by rw [hhist _ (by simp) (by simp)]; exact h1, by rw [hav i ei]; exact h2, h3, by rw [hlt i ei]; exact h4,
       by rw [hfv i ei]; exact h5⟩
-  · intro i; rw [hown, hlen _ hcnt]; exact inv.unalloc i
+  · intro i; rw [hown, hlen _ hcnt hcnt2]; exact inv.unalloc i
   · intro i ho
     rw [hown] at ho
     have ei : i ≠ i0 := by intro e; subst e; rw [hown0] at ho; cases ho
@@ -122,7 +124,7 @@ theorem Inv.slot_step {c : Cfg} {o : Orders} {s s' : State} {t i0 : Nat} (inv : 
         by_cases e : t' = t
         · subst e; rw [← hlk3 i ei]; exact h2 t'
         · rw [← hpcs t' e]; exact h2 t')
-      rw [hhist _ (by simp [ei]), hlen _ (by simp [ei]), hav i ei]
+      rw [hhist _ (by simp [ei]) (by simp), hlen _ (by simp [ei]) (by simp), hav i ei]
       exact this
   · intro i h1 h2
     by_cases ei : i = i0
@@ -149,6 +151,6 @@ theorem Inv.slot_step {c : Cfg} {o : Orders} {s s' : State} {t i0 : Nat} (inv : 
       have ei : i ≠ i0 := by
         intro ei; subst ei
         rw [others t' e] at hu; cases hu
-      exact ⟨by rw [hown], hlt i ei, hfv i ei, hhist _ (by simp [ei])⟩
+      exact ⟨by rw [hown], hlt i ei, hfv i ei, hhist _ (by simp [ei]) (by simp)⟩
 
 end Babylon.Epoch
